@@ -50,7 +50,7 @@ for C in $CHECKS; do
     RESULTS="$RESULTS$C"$'\x1f'"$RC"$'\x1f'"$SIGS"$'\x1e'
 done
 mkdir -p "$OUT"
-cp "$SRC/patch.diff" "$OUT/"; cp "$SRC"/demo* "$OUT/" 2>/dev/null; cp "$SRC/expected.txt" "$OUT/" 2>/dev/null; cp "$SRC/notes.md" "$OUT/agent_notes.md" 2>/dev/null
+cp "$SRC/patch.diff" "$OUT/"; cp "$SRC"/demo* "$OUT/" 2>/dev/null; cp "$SRC/expected.txt" "$OUT/" 2>/dev/null; cp "$SRC/notes.md" "$OUT/agent_notes.md" 2>/dev/null; cp "$SRC/agent_notes.md" "$OUT/" 2>/dev/null
 for f in "$SRC"/*; do case "$f" in *.sld|*/lib|*/libs) cp -r "$f" "$OUT/";; esac; done
 SID="$SID" PROP="$PROP" TESTS="$TESTS" NPASS="$NPASS" CLEAN_DEMO="$CLEAN_DEMO" SEEDED_DEMO="$SEEDED_DEMO" RESULTS="$RESULTS" WT="$WT" OUT="$OUT" python3 - <<'PY'
 import json, os
